@@ -15,6 +15,7 @@ import (
 	"strings"
 	"sync/atomic"
 	"testing"
+	"time"
 
 	"github.com/anthdm/hollywood/actor"
 	"pgregory.net/rapid"
@@ -29,6 +30,10 @@ type RKid struct {
 	// DupFirst: before anything else the parent spawns the id once more while its holder is alive: the
 	// spawn is refused, the holder stays what the parent lists - and is what leaves the list when it stops
 	DupFirst bool `json:"dup_first,omitempty"`
+	// Hold (with Respawn and Late): the first holder stays inside its Stopped handler until AFTER the
+	// parent has been told to stop: it is still a child that the parent spawned, and the parent must
+	// not handle its own Stopped before it
+	Hold bool `json:"hold,omitempty"`
 }
 
 type RCase struct {
@@ -72,6 +77,7 @@ func runRespawn(c RCase) (map[string]int, error) {
 		return func(pc *actor.Context) { h.pid = pc.SpawnChildFunc(recvOf(h), "kid", actor.WithID(fmt.Sprint(i))) }
 	}
 	var stoppedBeforeParent string
+	var heldFirst []*holder
 	opts := []actor.OptFunc{actor.WithID("0"), actor.WithRestartDelay(0)}
 	if c.Final == "crash" {
 		opts = append(opts, actor.WithMaxRestarts(0))
@@ -86,6 +92,11 @@ func runRespawn(c RCase) (map[string]int, error) {
 			for _, h := range alive {
 				if !h.stopped.Load() && stoppedBeforeParent == "" {
 					stoppedBeforeParent = h.pid.ID
+				}
+			}
+			for _, h := range heldFirst {
+				if !h.stopped.Load() && stoppedBeforeParent == "" {
+					stoppedBeforeParent = h.pid.ID + " (the former holder of the id, still inside its Stopped handler)"
 				}
 			}
 			parentStopped.Store(true)
@@ -115,6 +126,12 @@ func runRespawn(c RCase) (map[string]int, error) {
 		sort.Strings(l)
 		return l, err
 	}
+	type heldKid struct {
+		h    *holder
+		done <-chan struct{}
+		i    int
+	}
+	var held []heldKid
 	for i, k := range c.Kids {
 		if k.DupFirst {
 			ran := false
@@ -155,6 +172,12 @@ func runRespawn(c RCase) (map[string]int, error) {
 				return nil, err
 			}
 		}
+		if k.Respawn && k.Late && k.Hold {
+			held = append(held, heldKid{first[i], done, i})
+			alive = append(alive, cur)
+			feat["former-child-still-in-Stopped-when-the-parent-ends"]++
+			continue
+		}
 		close(first[i].rel)
 		if err := waitCh(done, "stop of the first holder not done"); err != nil {
 			return nil, err
@@ -183,6 +206,20 @@ func runRespawn(c RCase) (map[string]int, error) {
 		if strings.Join(got, ",") != strings.Join(want, ",") {
 			return nil, fmt.Errorf("after the first holder of kid/%d had stopped (respawned=%v, before it left Stopped=%v): the parent's Children() = %v, its live children are %v", i, k.Respawn, k.Late, got, want)
 		}
+	}
+	for _, hk := range held {
+		heldFirst = append(heldFirst, hk.h)
+	}
+	if len(held) > 0 {
+		// the gates of the held former children open a moment after the parent was told to stop: a
+		// parent that does not wait for them has handled Stopped by then (seen in its handler, no
+		// clock in the verdict); one that waits is released by the opening
+		go func() {
+			time.Sleep(30 * time.Millisecond)
+			for _, hk := range held {
+				close(hk.h.rel)
+			}
+		}()
 	}
 	// ---- the parent ends: every live child has handled Stopped and is unregistered before the parent's own Stopped
 	var done <-chan struct{}
@@ -237,6 +274,7 @@ func TestRespawnChild(t *testing.T) {
 				How:      rapid.SampledFrom([]string{"stop", "poison"}).Draw(t, "how"),
 				Respawn:  rapid.IntRange(0, 3).Draw(t, "respawn") > 0,
 				Late:     rapid.Bool().Draw(t, "late"),
+				Hold:     rapid.IntRange(0, 2).Draw(t, "hold") == 0,
 				DupFirst: rapid.IntRange(0, 2).Draw(t, "dup_first") == 0,
 			})
 		}
